@@ -53,7 +53,13 @@ def gen_edits(rng, chn, ln, pat, trk, ins, smp):
             ed.append("sus.%d=%d" % (i, B(-5, 0, 1, 8, 15, 16, 17, 100000)))
             ed.append("sue.%d=%d" % (i, B(-1, 0, 1, 8, 15, 16, 17, 100000)))
         else: ed.append("xxo.0=%d" % B(0, 255))
-    return ",".join(ed)
+    # the envelope of the raw-module space: a track table is only absent when no pattern refers to it (libxmp_init_pattern
+    # allocates both tables or fails the load) - a later "pat=" edit must not bring patterns back
+    flat = ",".join(ed).split(",")
+    if "noxxt=1" in flat:
+        k = flat.index("noxxt=1")
+        flat = flat[:k + 1] + [e for e in flat[k + 1:] if not e.startswith("pat=")]
+    return ",".join(flat)
 
 def main():
     tier = sys.argv[1] if len(sys.argv) > 1 else "quick"
